@@ -14,7 +14,8 @@ early `return` that skips the idiom, an idiom under a condition, a statement aft
 still refuse the call: each shows up as an outcome, and the theorems of C19 quantify over them.
 Methods run through `self` (`self.delete_values()`, `self.x = v`) contribute their own outcomes
 (summaries iterated to a fixpoint over Python's MRO).
-The shapes of `force_created_at` / `force_updated_at` are verified.  The method resolution order of
+The shapes of `force_created_at` / `force_updated_at` (canonical or not) and the bodies of the
+`created_at` / `updated_at` getters are rendered as tables as well.  The method resolution order of
 every class is rendered as well, so that the Lean model resolves `Tag.definition` to `Entity.definition`
 exactly as Python does.  Parsed with `ast`, never imported.  Anything that mentions the time stamp
 machinery in a shape that is not recognised raises ExtractError (a broken tie).
@@ -105,31 +106,38 @@ def _strip_doc(body):
     return body
 
 
-def _check_force_shape(cls, fn, attr):
-    where = "%s.%s" % (cls, fn.name)
+def _force_canonical(fn, attr):
+    """is the body of force_created_at / force_updated_at exactly
+
+        if time is None: time = util.now_int()
+        else: util.check_attr_type(time, int)
+        <h5 object>.set_attr(attr, util.time_to_str(time))      (or  <h5 file>.attrs[attr] = util.time_to_str(time))
+
+    with the signature (self, time=None)"""
     args = fn.args
     if [a.arg for a in args.args] != ["self", "time"] or len(args.defaults) != 1 \
-            or not (isinstance(args.defaults[0], ast.Constant) and args.defaults[0].value is None):
-        raise ExtractError("%s: signature is not (self, time=None)" % where)
+            or not (isinstance(args.defaults[0], ast.Constant) and args.defaults[0].value is None) \
+            or args.vararg or args.kwarg or args.kwonlyargs:
+        return False
     body = _strip_doc(fn.body)
     if len(body) != 2 or not isinstance(body[0], ast.If):
-        raise ExtractError("%s: body is not `if time is None: ... else: ...; <write>`" % where)
+        return False
     iff, wr = body
     t = iff.test
     if not (isinstance(t, ast.Compare) and isinstance(t.left, ast.Name) and t.left.id == "time"
             and len(t.ops) == 1 and isinstance(t.ops[0], ast.Is)
             and isinstance(t.comparators[0], ast.Constant) and t.comparators[0].value is None):
-        raise ExtractError("%s: first test is not `time is None`" % where)
-    if not (len(iff.body) == 1 and isinstance(iff.body[0], ast.Assign)
+        return False
+    if not (len(iff.body) == 1 and isinstance(iff.body[0], ast.Assign) and len(iff.body[0].targets) == 1
             and isinstance(iff.body[0].targets[0], ast.Name) and iff.body[0].targets[0].id == "time"
             and _is_util_call(iff.body[0].value, "now_int", 0)):
-        raise ExtractError("%s: default is not util.now_int()" % where)
+        return False
     ok_else = (len(iff.orelse) == 1 and isinstance(iff.orelse[0], ast.Expr)
                and _is_util_call(iff.orelse[0].value, "check_attr_type", 2)
                and isinstance(iff.orelse[0].value.args[0], ast.Name) and iff.orelse[0].value.args[0].id == "time"
                and isinstance(iff.orelse[0].value.args[1], ast.Name) and iff.orelse[0].value.args[1].id == "int")
     if not ok_else:
-        raise ExtractError("%s: explicit time is not checked with util.check_attr_type(time, int)" % where)
+        return False
 
     def is_tts(v):
         return _is_util_call(v, "time_to_str", 1) and isinstance(v.args[0], ast.Name) and v.args[0].id == "time"
@@ -137,12 +145,12 @@ def _check_force_shape(cls, fn, attr):
     if isinstance(wr, ast.Expr) and isinstance(wr.value, ast.Call):
         c = wr.value
         good = (isinstance(c.func, ast.Attribute) and c.func.attr == "set_attr" and len(c.args) == 2
+                and not c.keywords
                 and isinstance(c.args[0], ast.Constant) and c.args[0].value == attr and is_tts(c.args[1]))
     elif isinstance(wr, ast.Assign) and len(wr.targets) == 1 and isinstance(wr.targets[0], ast.Subscript):
         sl = wr.targets[0].slice
         good = isinstance(sl, ast.Constant) and sl.value == attr and is_tts(wr.value)
-    if not good:
-        raise ExtractError("%s: does not write util.time_to_str(time) to %r" % (where, attr))
+    return good
 
 
 def _walk_local(node):
@@ -404,6 +412,7 @@ def scan_repo(repo):
     # summaries of the methods of every class, iterated to a fixpoint (a method may run another one through `self`)
     summ = {}      # (cls, name, is_setter) -> (frozenset normal touches, frozenset raising touches)
     getters = {}   # (cls, "created_at"|"updated_at") -> body shape
+    forces = {}    # (cls, "force_created_at"|"force_updated_at") -> body is the canonical one
 
     def analyse_all():
         results = {}
@@ -423,7 +432,7 @@ def scan_repo(repo):
                     continue
                 is_setter = any(d.endswith(".setter") for d in decs)
                 if m.name in FORCE and not is_setter:
-                    _check_force_shape(c, m, FORCE[m.name])
+                    forces[(c, m.name)] = _force_canonical(m, FORCE[m.name])
                     kind = "forceCreated" if m.name == "force_created_at" else "forceUpdated"
                     results[(c, m.name, False)] = (kind, [])
                     continue
@@ -456,7 +465,7 @@ def scan_repo(repo):
             raise ExtractError("%s.%s defined twice" % (c, n))
         seen.add((c, n))
         members.append((c, n, k, outs))
-    return classes, order, members, mro, getters
+    return classes, order, members, mro, getters, forces
 
 
 def _mem_id(n):
@@ -464,7 +473,7 @@ def _mem_id(n):
 
 
 def extract(repo):
-    classes, order, members, mro, getters = scan_repo(repo)
+    classes, order, members, mro, getters, forces = scan_repo(repo)
     memnames = []
     for _, n, _, _ in members:
         if n not in memnames:
@@ -539,6 +548,19 @@ def extract(repo):
     for (c, n), b in getters.items():
         grows.append("  ⟨.%s, .%s, %s⟩" % (c, GETTERS[n], ".parsesStored .%s" % b[1] if b[0] == "parsesStored" else ".other"))
     L.append(",\n".join(grows))
+    L.append("]")
+    L.append("")
+    L.append("/-- `force_created_at` / `force_updated_at` as defined by a class: `canonical` = the body is exactly")
+    L.append("`if time is None: time = util.now_int() else: util.check_attr_type(time, int)` followed by the write of")
+    L.append("`util.time_to_str(time)` to that attribute, signature `(self, time=None)` -/")
+    L.append("structure ForceDef where")
+    L.append("  cls : Cls")
+    L.append("  attr : StampAttr")
+    L.append("  canonical : Bool")
+    L.append("  deriving DecidableEq, Repr")
+    L.append("")
+    L.append("def forceDefs : List ForceDef := [")
+    L.append(",\n".join("  ⟨.%s, .%s, %s⟩" % (c, GETTERS[FORCE[n]], lean_bool(ok)) for (c, n), ok in forces.items()))
     L.append("]")
     L.append("")
     L.append("/-- Python's method resolution order (C3), restricted to the classes above -/")
